@@ -17,7 +17,12 @@ static Plan gen_cvbr_long(uint64_t seed, int tier) {
   if (r.chance(0.3)) p.ops.push_back(mkop("CTL", {OPUS_SET_SIGNAL_REQUEST, r.pick({3001, 3002})}));
   int fam = r.pick({(int)SRC_TONES, (int)SRC_SWEEP, (int)SRC_VOICED, (int)SRC_NOISE, (int)SRC_MUSIC, (int)SRC_MUSIC, (int)SRC_VOICED, (int)SRC_CLICKS});
   p.ops.push_back(mkop("SRC", {fam, r.pick({110, 220, 440, 1000, 3000}), r.pick({100, 300, 500, 900}), r.range(1, 1000), r.range(200, 900)}));
-  int fi = r.weighted({1, 2, 4, 8, 3, 3, 0, 0, 0});
+  int fi = r.weighted({2, 2, 4, 8, 3, 3, 0, 0, 0});
+  if (getenv("OPSIM_C05_LONGONLY")) {   // calibration runs: spread evenly over durations, low target sizes well represented
+    fi = (int)r.range(0, 5);
+    p.ops.push_back(mkop("CTL", {OPUS_SET_BITRATE_REQUEST, (int)r.pick({6000, 8000, 10000, 12000, 16000, 20000, 24000, 32000, 40000, 48000, 64000, 96000, 128000, 192000, (int)r.range(6000, 256000)})}));
+    if (r.chance(0.4)) p.ops.push_back(mkop("CTL", {11002, 1002}));
+  }
   double secs = tier ? r.range(7, 15) : 6.5, t = 0;
   while (t < secs) {
     if (r.chance(0.01)) p.ops.push_back(mkop("SRC", {r.pick({(int)SRC_TONES, (int)SRC_VOICED, (int)SRC_NOISE, (int)SRC_MUSIC, (int)SRC_SILENCE}), r.pick({110, 220, 440, 3000}), r.pick({100, 300, 900}), r.range(1, 1000), r.range(200, 900)}));
@@ -28,7 +33,7 @@ static Plan gen_cvbr_long(uint64_t seed, int tier) {
 }
 
 static Plan gen(uint64_t seed, int tier) {
-  if ((seed >> 8) % 10 == 0) return gen_cvbr_long(seed, tier);
+  if ((seed >> 8) % 10 == 0 || getenv("OPSIM_C05_LONGONLY")) return gen_cvbr_long(seed, tier);
   Plan p = gen_lockstep(seed, tier, 1);
   // rate-control emphasis: make sure CBR / CVBR and bitrate changes are well represented
   Rng r(seed ^ 0xC05);
